@@ -213,8 +213,34 @@ def plan_c14(tier, seed):
                     "distinct = shapes + harnesses + programs rejected as required"}
 
 
+def plan_c20(tier, seed):
+    read_obs = ["exact", "lpm", "iters", "cover", "children", "views", "wf", "split_hold"]
+    runs = grid(["map", "set"], ALL, ["U2"], ["hi", "lo"], "full", [], [])
+    runs += grid(["map", "set"], REP7 if tier == "quick" else ALL, ["U2"], ["hi", "lo"], "structural", read_obs, ["lookups", "iters", "views"], deep=(tier == "thorough"))
+    runs += grid(["map"], ["u8", "Ipv6Net"], ["U2"], ["hi", "lo"], "structural", ["find"])
+    runs += grid(["map"], ALL, ["U2"], ["hi", "lo"], "structural", ["faults"])
+    runs += [ex("map", "u8", "U2", "hi", "structural", ["handles"], threads=4), ex("map", "Ipv4Net", "U2", "lo", "structural", ["handles"], threads=4),
+             ex("map", "u128", "U2", "lo", "structural", ["handles"], threads=4)]
+    runs += [pr("u8", "U2", "hi", "whole", "structural", "structural", threads=8)]
+    runs += [pr(t, "U2", "lo", "all", "canonical", "canonical", threads=2) for t in ["u8", "u64", "Ipv6Net", "Ipv4Inet"]]
+    runs += [{"engine": "algebra", "ptype": t, "seed": seed, "deep": False} for t in ALL]
+    plan = {"runs": runs, "jobs": 8,
+            "rule": "every call issued by the explorers, observers, pair engine and algebra engine runs under catch_unwind in a build with overflow checks and debug assertions; "
+                    "handle-level programs (<= 2 non-consuming calls then one consuming call; <= 3 in the thorough tier) on entries and mutable views; a panic injected at every "
+                    "invocation index of every callback for every keep-subset; iterator step caps and a pending-call watchdog for divergence; distinct = shapes + evaluated pairs"}
+    if tier == "thorough":
+        runs += grid(["map"], ["u8", "u32"], ["U3"], ["hi"], "structural", ["exact", "lpm", "cover"], threads=8, retain_all=False)
+        runs += grid(["map"], ["u8"], ["U3"], ["hi"], "canonical", ["faults"], threads=8)
+        runs += grid(["map", "set"], ALL, ["comb5"], ["hi", "lo"], "structural", ["exact", "iters", "views"], ["lookups", "iters"], retain_all=False)
+        runs += [ex("map", t, "U2", e, "structural", ["handles"], threads=4, deep=True) for t in ["u8", "u16", "Ipv4Cidr", "Ipv6Inet"] for e in ["hi", "lo"]]
+        # the same explorations in a plain release build (no overflow checks, no debug assertions)
+        plan["plain_runs"] = grid(["map", "set"], ALL, ["U2"], ["hi", "lo"], "full", ["exact", "lpm", "iters"], ["lookups", "iters"]) + [{"engine": "algebra", "ptype": t, "seed": seed, "deep": True} for t in ALL]
+    return plan
+
+
 PLANS = {
     "C01": plan_c01,
+    "C20": plan_c20,
     "C14": plan_c14,
     "C17": plan_c17,
     "C13": plan_c13,
